@@ -200,8 +200,8 @@ def rnd_shape(rng):
     return planar.PShape('pt', pts=[rnd_pt(rng, -1, 5)])
 
 
-def derive(rng, A):
-    """a second shape placed *relationally* with respect to A"""
+def derive(rng, A, force=None):
+    """a second shape placed *relationally* with respect to A (`force` = (k, variant) picks the placement)"""
     if A.kind in ('poly', 'box'):
         ring = A.shell[:-1]
         v = rng.choice(ring)
@@ -211,6 +211,9 @@ def derive(rng, A):
         xs, ys = [p[0] for p in ring], [p[1] for p in ring]
         cx, cy = (min(xs) + max(xs)) / 2, (min(ys) + max(ys)) / 2
         k = rng.choice([0, 1, 2, 3, 4, 5, 6, 6, 7, 7, 7, 8, 9, 10, 11, 12, 12, 12]) if A.holes else rng.randrange(12)
+        annulus = rng.random() < 0.5
+        if force is not None:
+            k, annulus = force
         if k == 12:  # straddles an edge of a hole without leaving the shell and without covering a hole vertex
             h = A.holes[0][:-1]
             j = rng.randrange(len(h))
@@ -248,7 +251,7 @@ def derive(rng, A):
             h = A.holes[0][:-1]
             hx, hy = sum(p[0] for p in h) / len(h), sum(p[1] for p in h) / len(h)
             return planar.PShape('poly', raw=[(hx + (x - hx) / 2, hy + (y - hy) / 2) for x, y in h])
-        if k == 7 and A.holes and rng.random() < 0.5:   # concentric annulus: surrounds A's hole, its own hole inside A's hole
+        if k == 7 and A.holes and annulus:   # concentric annulus: surrounds A's hole, its own hole inside A's hole
             h = A.holes[0][:-1]
             hx, hy = sum(p[0] for p in h) / len(h), sum(p[1] for p in h) / len(h)
             return planar.PShape('poly', raw=[(hx + (x - hx) * F(3, 2), hy + (y - hy) * F(3, 2)) for x, y in h],
@@ -411,6 +414,24 @@ def check(run):
             if ans[ln].startswith('ERR') or ans[ln] == 'TIMEOUT':
                 run.report(ln.split()[0] + '/raises', f'a valid shape pair raises {ans[ln]}',
                            {'stream': 'shape-pairs', 'line': ln, 'impl': ans[ln], 'spec': 'T or F'})
+
+    # 3·. every relational placement of `derive`, for shapes with and without holes, in every run (random choice of the
+    #     placement left the rarer ones — a concentric annulus around a hole, a shape straddling a hole edge — to luck)
+    lines4 = []
+    for rep in range(run.scale(3, 12)):
+        bases = [rnd_poly(rng, holes_ok=False), rnd_box(rng), next(q for q in iter(lambda: rnd_poly(rng), None) if q.holes),
+                 next(q for q in iter(lambda: rnd_box(rng), None) if q.holes)]
+        for A in bases:
+            for k in range(13):
+                for annulus in ((False, True) if k == 7 else (False,)):
+                    if k in (6, 7, 12) and not A.holes:
+                        continue
+                    B = derive(rng, A, force=(k, annulus))
+                    for X, Y in ((A, B), (B, A)):
+                        for op in ('inter', 'contains'):
+                            lines4.append(f'rel.{op} {X.tokens()} | {Y.tokens()}')
+    run.run_cases('every-relational-placement', lines4, impl, spec,
+                  tag=lambda ln, a: ['placement:' + ln.split()[0] + ':' + (a if a in 'TF' else 'ERR')])
 
     # 3a. every kind against a coincident partner (itself re-built, one of its own vertices, a relational placement)
     #     under EVERY combination of time bounds: the spatial predicates are time-free, whatever equality or membership
